@@ -1295,4 +1295,234 @@ theorem overlay_bytes (mf : Nat) (r w : Fmt) (o : OverlayV) (idx : Nat) (hn : o.
   simp only [List.cons_append, List.nil_append]
   exact (pack_i32_zeros _ _ _).symm
 
+
+/-! ## brush models + PHYSCOLLIDE -/
+
+theorem pi32_spec {v : Int} {b : Bytes} (h : pi32 v = .ok b) : b.length = 4 ∧ unpackInt 4 true b = v := by
+  have h' := mapError_ok _ _ _ h
+  exact ⟨packInt_length h', unpackInt_packInt 4 (by decide) true _ _ h'⟩
+
+theorem readSolids_spec : ∀ (ss : List Bytes) (B rest : Bytes), solidsBytes ss = .ok B →
+    readSolids ss.length (B ++ rest) = .ok (ss, rest) := by
+  intro ss
+  induction ss with
+  | nil => intro B rest h; simp [solidsBytes] at h; subst h; simp [readSolids]
+  | cons s ss ih =>
+    intro B rest h
+    simp only [solidsBytes] at h
+    obtain ⟨l, hl, h⟩ := bind_ok _ _ _ h
+    obtain ⟨r, hr, h⟩ := map_ok _ _ _ h
+    subst h
+    obtain ⟨ll, ul⟩ := pi32_spec hl
+    have ht : (l ++ s ++ r ++ rest).take 4 = l := by simp [List.append_assoc, List.take_left' ll]
+    have hd : (l ++ s ++ r ++ rest).drop 4 = s ++ (r ++ rest) := by simp [List.append_assoc, List.drop_left' ll]
+    simp only [List.length_cons, readSolids, ht, hd, ll, ul, Int.toNat_natCast, List.drop_left, List.take_left,
+      Nat.lt_irrefl, if_false, ih r rest hr]
+
+/-- a model has a physics section -/
+def hasPhys (m : BModelV) : Bool := !(m.kv == none && m.solids == [])
+
+/-- the text section has no trailing NUL of its own (it is a serialised keyvalues text) -/
+def BModelV.ok (m : BModelV) : Prop :=
+  (m.solids ≠ [] → m.kv ≠ none) ∧ (∀ t, m.kv = some t → t.getLast? ≠ some 0)
+
+def physEntryOf (i : Nat) (m : BModelV) : PhysEntry := { model := i, solids := m.solids, kv := m.kv.getD [] }
+
+theorem readPhys_section (fuel i : Nat) (m : BModelV) (S rest : Bytes) (hm : m.ok) (hp : hasPhys m = true)
+    (h : physSection i m = .ok S) :
+    readPhys (fuel + 1) (S ++ rest) =
+      match readPhys fuel rest with
+      | .error e => .error e
+      | .ok es => .ok (physEntryOf i m :: es) := by
+  have hne : ¬ (m.kv = none ∧ m.solids = []) := by
+    simp only [hasPhys, Bool.not_eq_true', Bool.and_eq_false_iff, beq_eq_false_iff_ne, ne_eq] at hp
+    intro ⟨a, b⟩; rcases hp with h | h
+    · exact h a
+    · exact h b
+  simp only [physSection, hne, if_false] at h
+  obtain ⟨a, ha, h⟩ := bind_ok _ _ _ h
+  obtain ⟨b, hb, h⟩ := bind_ok _ _ _ h
+  obtain ⟨c, hc, h⟩ := bind_ok _ _ _ h
+  obtain ⟨d, hd, h⟩ := bind_ok _ _ _ h
+  obtain ⟨ss, hss, h⟩ := map_ok _ _ _ h
+  subst h
+  obtain ⟨la, ua⟩ := pi32_spec ha
+  obtain ⟨lb, _⟩ := pi32_spec hb
+  obtain ⟨lc, uc⟩ := pi32_spec hc
+  obtain ⟨ld, ud⟩ := pi32_spec hd
+  have e16 : (a ++ b ++ c ++ d ++ ss ++ (m.kv.getD [] ++ [0]) ++ rest) = a ++ (b ++ (c ++ (d ++ (ss ++ ((m.kv.getD [] ++ [0]) ++ rest))))) := by
+    simp [List.append_assoc]
+  rw [e16, readPhys]
+  have t16 : ((a ++ (b ++ (c ++ (d ++ (ss ++ ((m.kv.getD [] ++ [0]) ++ rest)))))).take 16).length = 16 := by
+    simp [la, lb, lc, ld]; omega
+  have t4 : (a ++ (b ++ (c ++ (d ++ (ss ++ ((m.kv.getD [] ++ [0]) ++ rest)))))).take 4 = a := List.take_left' la
+  have d8 : ((a ++ (b ++ (c ++ (d ++ (ss ++ ((m.kv.getD [] ++ [0]) ++ rest)))))).drop 8).take 4 = c := by
+    rw [← List.append_assoc a b, List.drop_left' (by simp [la, lb]), List.take_left' lc]
+  have d12 : ((a ++ (b ++ (c ++ (d ++ (ss ++ ((m.kv.getD [] ++ [0]) ++ rest)))))).drop 12).take 4 = d := by
+    rw [← List.append_assoc a b, ← List.append_assoc (a ++ b) c, List.drop_left' (by simp [la, lb, lc]), List.take_left' ld]
+  have d16 : (a ++ (b ++ (c ++ (d ++ (ss ++ ((m.kv.getD [] ++ [0]) ++ rest)))))).drop 16 = ss ++ ((m.kv.getD [] ++ [0]) ++ rest) := by
+    rw [← List.append_assoc a b, ← List.append_assoc (a ++ b) c, ← List.append_assoc (a ++ b ++ c) d,
+      List.drop_left' (by simp [la, lb, lc, ld])]
+  simp only [t16, Nat.lt_irrefl, if_false, t4, d8, d12, d16, ua, uc, ud, Int.toNat_natCast]
+  have hneg1 : ¬ ((i : Int) = -1) := by omega
+  have hneg : ¬ ((i : Int) < 0) := by omega
+  simp only [hneg1, hneg, if_false, readSolids_spec m.solids ss _ hss, List.drop_left, List.take_left]
+  -- the text section comes back without its terminating NUL
+  have hkv : rstrip0 (m.kv.getD [] ++ [0]) = m.kv.getD [] := by
+    have := rstrip0_append_zeros (m.kv.getD []) 1 (by
+      cases hk : m.kv with
+      | none => simp
+      | some t => simpa using hm.2 t hk)
+    simpa [zeros] using this
+  simp only [hkv, physEntryOf]
+  cases readPhys fuel rest <;> rfl
+
+theorem readPhys_sentinel (fuel : Nat) (S rest : Bytes) (h : physSentinel = .ok S) : readPhys (fuel + 1) (S ++ rest) = .ok [] := by
+  simp only [physSentinel] at h
+  obtain ⟨a, ha, h⟩ := bind_ok _ _ _ h
+  obtain ⟨z, hz, h⟩ := map_ok _ _ _ h
+  subst h
+  obtain ⟨la, ua⟩ := pi32_spec ha
+  obtain ⟨lz, _⟩ := pi32_spec hz
+  rw [readPhys]
+  have t16 : ((a ++ z ++ z ++ z ++ rest).take 16).length = 16 := by simp [la, lz]; omega
+  have t4 : (a ++ z ++ z ++ z ++ rest).take 4 = a := by simp [List.append_assoc, List.take_left' la]
+  simp only [t16, Nat.lt_irrefl, if_false, t4, ua, if_true]
+
+/-- the sections of the models at positions `i, i+1, …` -/
+def physEntries : Nat → List BModelV → List PhysEntry
+  | _, [] => []
+  | i, m :: ms => if hasPhys m then physEntryOf i m :: physEntries (i + 1) ms else physEntries (i + 1) ms
+
+theorem readPhys_sections (md : Nat → BModelV) (hmd : ∀ x, (md x).ok) (S rest : Bytes) (hS : physSentinel = .ok S) :
+    ∀ (ms : List Nat) (i fuel : Nat) (P : Bytes), ms.length < fuel → physSections md i ms = .ok P →
+    readPhys fuel (P ++ (S ++ rest)) = .ok (physEntries i (ms.map md)) := by
+  intro ms
+  induction ms with
+  | nil =>
+    intro i fuel P hf h
+    simp [physSections] at h; subst h
+    obtain ⟨f, rfl⟩ := Nat.exists_eq_succ_of_ne_zero (by omega : fuel ≠ 0)
+    simpa [physEntries] using readPhys_sentinel f S rest hS
+  | cons m ms ih =>
+    intro i fuel P hf h
+    simp only [physSections] at h
+    obtain ⟨a, ha, h⟩ := bind_ok _ _ _ h
+    obtain ⟨r, hr, h⟩ := map_ok _ _ _ h
+    subst h
+    obtain ⟨f, rfl⟩ := Nat.exists_eq_succ_of_ne_zero (by simp at hf; omega : fuel ≠ 0)
+    have hih := ih (i + 1) f r (by simp at hf; omega) hr
+    cases hp : hasPhys (md m) with
+    | true =>
+      rw [List.append_assoc, readPhys_section f i (md m) a _ (hmd m) hp ha, hih]
+      simp [physEntries, hp]
+    | false =>
+      have hemp : (md m).kv = none ∧ (md m).solids = [] := by
+        simpa [hasPhys] using hp
+      simp only [physSection, hemp, and_self, if_true, Except.ok.injEq] at ha
+      subst ha
+      have hih' := ih (i + 1) (f + 1) r (by simp at hf; omega) hr
+      simp only [List.nil_append, List.map_cons, physEntries, hp, Bool.false_eq_true, if_false]
+      exact hih'
+
+
+def baseModel (m : BModelV) : BModelV := { m with kv := none, solids := [] }
+
+theorem applyPhys_spec : ∀ (ms pre : List BModelV), (∀ m ∈ ms, m.ok) →
+    applyPhys (physEntries pre.length ms) (pre ++ ms.map baseModel) = .ok (pre ++ ms) := by
+  intro ms
+  induction ms with
+  | nil => intro pre _; simp [physEntries, applyPhys]
+  | cons m ms ih =>
+    intro pre hok
+    have hm := hok m (by simp)
+    have hrest := ih (pre ++ [m]) (fun x hx => hok x (by simp [hx]))
+    simp only [List.length_append, List.length_singleton, List.append_assoc, List.cons_append, List.nil_append] at hrest
+    cases hp : hasPhys m with
+    | false =>
+      have hemp : m.kv = none ∧ m.solids = [] := by simpa [hasPhys] using hp
+      have hb : baseModel m = m := by cases m; simp_all [baseModel]
+      simp only [physEntries, hp, Bool.false_eq_true, if_false, List.map_cons, hb]
+      exact hrest
+    | true =>
+      have hkv : ∃ t, m.kv = some t := by
+        cases hk : m.kv with
+        | some t => exact ⟨t, rfl⟩
+        | none =>
+          exfalso
+          by_cases hs : m.solids = []
+          · simp [hasPhys, hk, hs] at hp
+          · exact hm.1 hs hk
+      obtain ⟨t, ht⟩ := hkv
+      simp only [physEntries, hp, if_true, List.map_cons, applyPhys, physEntryOf]
+      have hget : (pre ++ baseModel m :: ms.map baseModel)[pre.length]? = some (baseModel m) := by simp
+      rw [hget]
+      have hchk : ¬ ((baseModel m).solids ≠ [] ∨ (baseModel m).kv ≠ none) := by simp [baseModel]
+      simp only [hchk, if_false]
+      have hset : (pre ++ baseModel m :: ms.map baseModel).set pre.length
+          { baseModel m with solids := m.solids, kv := some (m.kv.getD []) } = pre ++ m :: ms.map baseModel := by
+        rw [List.set_append_right _ _ (Nat.le_refl _)]
+        simp only [Nat.sub_self, List.set_cons_zero]
+        congr 2
+        cases m; simp_all [baseModel]
+      rw [hset]
+      exact hrest
+
+def BModelSt.Inv (s : BModelSt) : Prop := s.fNode.Inv idKey
+
+theorem writeBModelRecs_spec (md : Nat → BModelV) (h9 : ∀ x, (md x).floats.length = 9) : ∀ (ms : List Nat) (s : BModelSt), s.Inv →
+    s.fNode.list <+: (writeBModelRecs true md s ms).2.fNode.list ∧ s.eFaces.list <+: (writeBModelRecs true md s ms).2.eFaces.list ∧
+    ∀ fn ff, (writeBModelRecs true md s ms).2.fNode.list <+: fn → (writeBModelRecs true md s ms).2.eFaces.list <+: ff →
+      readBModelRecs fn ff (writeBModelRecs true md s ms).1 = .ok (ms.map (fun x => baseModel (md x))) := by
+  intro ms
+  induction ms with
+  | nil => intro s _; exact ⟨List.prefix_refl _, List.prefix_refl _, fun _ _ _ _ => rfl⟩
+  | cons m ms ih =>
+    intro s hs
+    obtain ⟨i1, p1, r1⟩ := finder_res s.fNode hs (md m).node
+    obtain ⟨p2, r2⟩ := efinder_res s.eFaces (md m).faces
+    obtain ⟨q1, q2, rd⟩ := ih ⟨(s.fNode.call idKey (md m).node).2, (s.eFaces.call true idKey (md m).faces).2⟩ i1
+    simp only [writeBModelRecs]
+    refine ⟨p1.trans q1, p2.trans q2, ?_⟩
+    intro fn ff h1 h2
+    have hl := h9 m
+    have ht : (((md m).floats.map Val.f32) ++ [Val.int ((s.fNode.call idKey (md m).node).1 : Nat),
+        Val.int ((s.eFaces.call true idKey (md m).faces).1 : Nat), Val.int (md m).faces.length]).take 9 = (md m).floats.map Val.f32 := by
+      rw [List.take_left' (by simp [hl])]
+    have hd : (((md m).floats.map Val.f32) ++ [Val.int ((s.fNode.call idKey (md m).node).1 : Nat),
+        Val.int ((s.eFaces.call true idKey (md m).faces).1 : Nat), Val.int (md m).faces.length]).drop 9 =
+        [Val.int ((s.fNode.call idKey (md m).node).1 : Nat), Val.int ((s.eFaces.call true idKey (md m).faces).1 : Nat),
+         Val.int (md m).faces.length] := by
+      rw [List.drop_left' (by simp [hl])]
+    simp only [readBModelRecs, readBModelRec, ht, hd, f32sOf_map, pyIdx_nat, r1 fn (q1.trans h1), Int.toNat_natCast,
+      r2 ff (q2.trans h2), rd fn ff h1 h2, List.map_cons, baseModel]
+
+/-- **Brush models + PHYSCOLLIDE.** The model list (worldspawn's model first, then the models of the
+brush entities in first-use order), each with its bounds, head node, face slice, solids and text
+section; the entity indices resolve to the entities' own models. -/
+theorem bmodels_roundtrip (md : Nat → BModelV) (hmd : ∀ x, (md x).ok) (h9 : ∀ x, (md x).floats.length = 9)
+    (nodes faces : List Nat) (world : Nat) (entModels idx ml nodes' faces' fn ff : List Nat)
+    (recs : List (List Val)) (phys : Bytes) (fuel : Nat)
+    (h : writeBModels true md nodes faces world entModels = .ok (idx, recs, phys, ml, nodes', faces'))
+    (hfuel : ml.length < fuel) (hn : nodes' <+: fn) (hf : faces' <+: ff) :
+    readBModels fuel fn ff recs phys = .ok (ml.map md) ∧ resolveArr ml idx = .ok entModels ∧
+    ml[0]? = some world ∧ nodes <+: nodes' ∧ faces <+: faces' := by
+  simp only [writeBModels] at h
+  obtain ⟨ph, hph, h⟩ := bind_ok _ _ _ h
+  obtain ⟨se, hse, h⟩ := map_ok _ _ _ h
+  simp only [Prod.mk.injEq] at h
+  obtain ⟨rfl, rfl, rfl, rfl, rfl, rfl⟩ := h
+  obtain ⟨_, pm, _, rm⟩ := callAll_res entModels (Finder.mk' idKey [world]) (Finder.mk'_inv _ _)
+  obtain ⟨p1, p2, rd⟩ := writeBModelRecs_spec md h9 (Finder.callAll idKey (Finder.mk' idKey [world]) entModels).2.list
+    ⟨Finder.mk' idKey nodes, EFinder.mk' idKey faces⟩ (Finder.mk'_inv _ _)
+  have hphys := readPhys_sections md hmd se [] hse _ 0 fuel ph hfuel hph
+  simp only [List.append_nil] at hphys
+  refine ⟨?_, rm _ (List.prefix_refl _), getElem?_of_prefix pm (by simp [Finder.mk']), p1, p2⟩
+  unfold readBModels
+  rw [rd fn ff hn hf, hphys]
+  have := applyPhys_spec ((Finder.callAll idKey (Finder.mk' idKey [world]) entModels).2.list.map md) []
+    (fun m hm => by obtain ⟨x, _, rfl⟩ := List.mem_map.mp hm; exact hmd x)
+  simp only [List.length_nil, List.nil_append, List.map_map] at this
+  exact this
+
 end C11
